@@ -81,6 +81,26 @@ func canonType(t string) string {
 	return t
 }
 
+// specName renders a parameter-spec tuple for signatures, e.g. `[Int,?String]`.
+func specName(P []gen.CfgArg, sp []int) string {
+	var ns []string
+	for _, i := range sp {
+		a := P[i]
+		n := ""
+		switch t := a.Type.(type) {
+		case string:
+			n = t
+		case []string:
+			n = strings.Join(t, "/")
+		}
+		if a.IsDefault {
+			n += "+is_default"
+		}
+		ns = append(ns, n)
+	}
+	return "[" + strings.Join(ns, ",") + "]"
+}
+
 func cfgTag(cfg string) string {
 	if cfg == "core" || cfg == "" {
 		return ""
@@ -244,6 +264,70 @@ func builtinCalls(x *ctx, prop string) {
 	for _, n := range []string{"gen-base-first", "gen-sub-first"} {
 		x.pool.NewCfgDir(n, genCfgs[n])
 		genFor(n, ref.Load(genCfgs[n]), []recvKind{{"Gbase", "Gbase.new", nil}, {"Gsub", "Gsub.new", nil}}, map[string]bool{"Gbase": true, "Gsub": true})
+	}
+	// CG: one generated class whose class methods cover every parameter-spec tuple over P up to the length
+	// bound, each with a return spec from R (rotating); called as `Cg.mN(args)` with every argument tuple.
+	P := []gen.CfgArg{
+		{Type: []string{"Int"}}, {Type: []string{"String"}}, {Type: []string{"Float"}}, {Type: []string{"Int", "String"}}, {Type: "Int|Symbol"},
+		{Type: []string{"DefaultInt"}}, {Type: "?String"}, {Type: []string{"String"}, IsDefault: true}, {Type: "*Int"}, {Type: []string{"Untyped"}}, {Type: []string{"NilClass", "Float"}},
+	}
+	R := []gen.CfgRet{{Type: []string{"Int"}}, {Type: []string{"String"}}, {Type: "?Int"}, {Type: []string{"Int", "String"}}, {Type: "[String]"}, {Type: []string{"Float"}}, {Type: "String|NilClass"}, {Type: []string{"Symbol"}}}
+	maxSpec := 2
+	if thorough {
+		maxSpec = 3
+	}
+	var specs [][]int
+	var srec func(cur []int)
+	srec = func(cur []int) {
+		specs = append(specs, append([]int{}, cur...))
+		if len(cur) == maxSpec {
+			return
+		}
+		for i := range P {
+			srec(append(cur, i))
+		}
+	}
+	srec(nil)
+	cg := gen.CfgClass{Frame: "Builtin", Class: "Cg"}
+	for i, sp := range specs {
+		m := gen.CfgMethod{Name: fmt.Sprintf("m%d", i), Arguments: []gen.CfgArg{}, ReturnType: R[i%len(R)]}
+		for _, pi := range sp {
+			m.Arguments = append(m.Arguments, P[pi])
+		}
+		cg.ClassMethods = append(cg.ClassMethods, m)
+	}
+	cgFiles := gen.Merge(core, map[string]string{"cg.json": cg.JSON()})
+	x.pool.NewCfgDir("cg-all", cgFiles)
+	cgRef := ref.Load(cgFiles)
+	for i := range specs {
+		name := fmt.Sprintf("m%d", i)
+		ms := cgRef.LookupStatic("Cg", name)
+		for _, tu := range tuples {
+			if len(tu) > len(specs[i])+1 {
+				continue
+			}
+			if !thorough && len(specs[i]) == 2 && len(tu) == 2 && (i+tu[0]+tu[1])%3 != 0 {
+				continue // quick: a third of the two-argument calls on two-parameter methods
+			}
+			var lits, classes []string
+			for _, k := range tu {
+				lits = append(lits, bcArgs[k].lit)
+				classes = append(classes, bcArgs[k].class)
+			}
+			call := "Cg." + name
+			if len(lits) > 0 {
+				call += "(" + strings.Join(lits, ", ") + ")"
+			}
+			c := bcCase{cfg: "cg-all", src: bcSetup + "rv = 0\ndbtp " + call + "\n", recv: recvKind{"Cg", "Cg", nil}, method: "m" + specName(P, specs[i]), args: classes, declared: true}
+			var m *ref.Method
+			c.verdict, c.reason, m = ref.AcceptAny(ms, classes)
+			if c.verdict == ref.Fits && m != nil {
+				if want, ok := m.RetType("Cg", nil); ok {
+					c.wantType = canonType(want)
+				}
+			}
+			cases = append(cases, c)
+		}
 	}
 	// select by property
 	var sel []bcCase
